@@ -259,3 +259,53 @@ pub fn drive<F: std::future::Future>(fut: F, dev: &Arc<Mutex<DevState>>) -> Resu
     }
     Err("future did not complete within the poll horizon".into())
 }
+
+
+/// Read-only file: `data` with `len` zero bytes inserted at offset `at` (archives whose chunk data
+/// lies beyond 2^32 without the memory).
+pub struct HoleFile {
+    pub data: Vec<u8>,
+    pub at: u64,
+    pub len: u64,
+    pub pos: u64,
+}
+
+impl tokio::io::AsyncRead for HoleFile {
+    fn poll_read(mut self: std::pin::Pin<&mut Self>, _cx: &mut std::task::Context<'_>, buf: &mut tokio::io::ReadBuf<'_>) -> std::task::Poll<std::io::Result<()>> {
+        let total = self.data.len() as u64 + self.len;
+        let mut n = 0usize;
+        while buf.remaining() > 0 && self.pos < total && n < 65536 {
+            let p = self.pos;
+            let b = if p < self.at {
+                self.data[p as usize]
+            } else if p < self.at + self.len {
+                0
+            } else {
+                self.data[(p - self.len) as usize]
+            };
+            buf.put_slice(&[b]);
+            self.pos += 1;
+            n += 1;
+        }
+        std::task::Poll::Ready(Ok(()))
+    }
+}
+
+impl tokio::io::AsyncSeek for HoleFile {
+    fn start_seek(mut self: std::pin::Pin<&mut Self>, position: std::io::SeekFrom) -> std::io::Result<()> {
+        let total = (self.data.len() as u64 + self.len) as i128;
+        let np = match position {
+            std::io::SeekFrom::Start(o) => o as i128,
+            std::io::SeekFrom::End(d) => total + d as i128,
+            std::io::SeekFrom::Current(d) => self.pos as i128 + d as i128,
+        };
+        if np < 0 {
+            return Err(std::io::Error::new(std::io::ErrorKind::InvalidInput, "seek before start"));
+        }
+        self.pos = np as u64;
+        Ok(())
+    }
+    fn poll_complete(self: std::pin::Pin<&mut Self>, _cx: &mut std::task::Context<'_>) -> std::task::Poll<std::io::Result<u64>> {
+        std::task::Poll::Ready(Ok(self.pos))
+    }
+}
